@@ -910,6 +910,16 @@ def find_replace(
         if starts_line and template_replacement.startswith(" " * indentation):
             template_replacement = template_replacement[indentation:]
 
+        if isinstance(combined_match[0], ast.GeneratorExp) and template_replacement.strip():
+            # The range of a generator always includes parentheses, which may be those of a call
+            # that it is the only argument of. In that case the replacement needs its own.
+            plain = source[:range_start] + template_replacement + source[range_end:]
+            wrapped = source[:range_start] + f"({template_replacement})" + source[range_end:]
+            if core.is_valid_python(wrapped) and not (
+                core.is_valid_python(plain) and _sources_equivalent(plain, wrapped)
+            ):
+                template_replacement = f"({template_replacement})"
+
         item = [replacement_range, template_replacement]
         if transaction is not None:
             item.append(transaction)
